@@ -10,5 +10,5 @@ Import ListNotations.
 Close Scope Q_scope.
 Open Scope R_scope.
 
-Lemma tile_560_574_125_250 tk p : 560 <= tk <= 574 -> 12500000 <= p <= 25000000 -> gpp tk p <= -1/100000.
+Lemma tile_586_600_250_500 tk p : 586 <= tk <= 600 -> 25000000 <= p <= 50000000 -> gpp tk p <= -1/100000.
 Proof. intros H1 H2. expose1. interval with (i_bisect tk, i_bisect p, i_depth 22). Qed.
